@@ -523,11 +523,23 @@ namespace Pistache::Async
                 void doResolve(const std::shared_ptr<CoreT<T>>& core) override
                 {
                     resolve_(core->value());
+                    finishResolve();
                 }
 
                 void doReject(const std::shared_ptr<CoreT<T>>& core) override
                 {
                     reject_(core->exc);
+                }
+
+                // the callback has returned: the derived Promise<void> is fulfilled
+                void finishResolve() const
+                {
+                    std::unique_lock<std::mutex> guard(this->chain_->mtx);
+                    this->chain_->state = State::Fulfilled;
+                    for (const auto& req : this->chain_->requests)
+                    {
+                        req->resolve(this->chain_);
+                    }
                 }
 
                 Resolve resolve_;
@@ -553,6 +565,18 @@ namespace Pistache::Async
                 void doResolve(const std::shared_ptr<CoreT<void>>& /*core*/) override
                 {
                     resolve_();
+                    finishResolve();
+                }
+
+                // the callback has returned: the derived Promise<void> is fulfilled
+                void finishResolve() const
+                {
+                    std::unique_lock<std::mutex> guard(this->chain_->mtx);
+                    this->chain_->state = State::Fulfilled;
+                    for (const auto& req : this->chain_->requests)
+                    {
+                        req->resolve(this->chain_);
+                    }
                 }
 
                 void doReject(const std::shared_ptr<CoreT<void>>& core) override
